@@ -419,6 +419,9 @@ def run(cx, rep):
         rep.ob("C14.6", "change-handler/unconditional", not early and not cond,
                "the change handler can skip updateFileContent (%s): the session cache then keeps the module parsed from the old text and later rebuilds differ from a fresh process" % (
                    "early exit before the update" if early else "update is conditional"), cmd.loc((early or cond or [fn])[0]))
+    # ---------------------------------------------------------------- C14.8
+    rep.rule("C14.8", "parsed modules kept by the session are immutable and carry no memo")
+    cached_modules_immutable_rule(cx, rep, "C14.8")
     # ---------------------------------------------------------------- C14.7
     rep.rule("C14.7", "cache-only module lookups are used for certainly-loaded files only")
     cache_only_lookup_rule(cx, rep, "C14.7")
@@ -433,6 +436,64 @@ def run(cx, rep):
         rep.ob("C14.5", "js-cache/filled-by:%s" % "+".join(sorted(fkc[name])), name in touched,
                "module-level cache `%s` in bundler.ts is filled from the file system and never invalidated when a file is updated (updateFileContent does not touch it)" % name,
                bundler_ts.loc(bundler_ts.vars[name][2]))
+
+
+INTERIOR = re.compile(r"\b(RefCell|Cell|OnceCell|LazyCell|Mutex|RwLock|Atomic\w+|UnsafeCell|DashMap|OnceLock)\b")
+HANDLE_MUTATORS = re.compile(r"(Comments>::(take_|add_|move_)\w+|DashMap<[^>]*>::(insert|remove|clear|alter|alter_all|entry|get_mut|iter_mut|retain|remove_if|shrink_to_fit)|::borrow_mut|::get_or_init|::set|::replace|::swap|::take|::store|::fetch_\w+|::lock|::write)$")
+
+
+def cached_modules_immutable_rule(cx, rep, rid):
+    """A parsed module is kept by the session (file name -> Rc<ParsedModule>) and handed to every later rebuild.  It may
+    therefore not change after parse_and_bind, nor carry a memo of its own: (a) no struct reachable from ParsedModule has
+    a field with interior mutability (RefCell, Cell, Mutex, atomics, DashMap ..) - such a field is a cache that outlives
+    the rebuild in which it was filled; (b) the one interior-mutable handle that comes from swc (the comment map) is
+    only read: no removing / adding call on it outside the parser."""
+    F = cx.rs
+    root = F.adts.get("ParsedModule")
+    if root is None:
+        rep.anchor_missing(rid, "ADT ParsedModule")
+        return
+    # (a) local ADTs reachable through field types
+    core_adts = {gid: a for gid, a in F.adts.items() if a["crate"] != WASM}
+    seen = set()
+    work = ["ParsedModule"]
+    handle_types = set()
+    n_fields = 0
+    while work:
+        gid = work.pop()
+        if gid in seen or gid not in core_adts:
+            continue
+        seen.add(gid)
+        a = core_adts[gid]
+        for v in a["variants"]:
+            for fl in v["fields"]:
+                n_fields += 1
+                ty = fl["ty"]
+                m = INTERIOR.search(ty)
+                rep.ob(rid, "field/%s.%s" % (gid, fl["name"]), m is None,
+                       "%s.%s : %s - a field with interior mutability inside a parsed module is a cache that outlives the rebuild in which it was filled (the module is shared by all later rebuilds and is not evicted when OTHER files change)" % (gid, fl["name"], ty),
+                       "%s:%s" % (a["file"], a["line"]), sample={"adt": gid, "field": fl["name"]})
+                if re.search(r"\b(SwcComments|SingleThreadedComments)\b", ty):
+                    handle_types.add(ty)
+                for other in core_adts:
+                    if other not in seen and re.search(r"(?<![\w])%s(?![\w])" % re.escape(other.rsplit("::", 1)[-1]), ty):
+                        work.append(other)
+    rep.floor(rid, "fields of the types reachable from ParsedModule", n_fields, 15)
+    # (b) mutating calls on interior-mutable handles, anywhere outside the parser
+    n_calls = 0
+    for g in sorted(F.fns):
+        f = F.fns[g]
+        if not f.mir or f.crate == WASM or "test_tools" in g or "::tests::" in g or (f.file or "").endswith("swc_tools/parse.rs"):
+            continue
+        for c in f.calls:
+            p_ = c.best or c.path or ""
+            if "Comments" in p_ or "DashMap" in p_:
+                n_calls += 1
+                bad = HANDLE_MUTATORS.search(p_) is not None
+                rep.ob(rid, "handle-call/%s" % strip_g(f.id), not bad,
+                       "%s calls %s on the comment map of a parsed module: the module is shared with every later rebuild, which then sees it changed (e.g. no JSDoc descriptions left)" % (f.id, p_),
+                       "%s:%s" % (c.file, c.line), sample={"fn": f.id, "call": p_})
+    rep.floor(rid, "uses of the comment map outside the parser", n_calls, 1)
 
 
 def cache_only_lookup_rule(cx, rep, rid):
